@@ -18,7 +18,7 @@ ASSUMPTIONS = ASSUMPTIONS_TRANSPORT + [
     "PATH_RESPONSE from the address); an implementation that validates later is merely stricter",
 ]
 COMPONENTS = COMPONENTS_TRANSPORT
-PLAN = plan(60, 900, ["handshake", "handshake", "migration", "fault_free", "zero_rtt"])
+PLAN = plan(60, 900, ["handshake", "handshake", "migration", "fault_free", "zero_rtt", "asyncio_server"])
 
 SIZES = (1200, 1200, 1252, 1350, 1472, 1280, 1400)
 def op_close(sim, ep, target, size, fin):
@@ -47,8 +47,30 @@ PROFILES = {
 }
 
 
+def run_asyncio_server(seed, tier, replay):
+    """The real aioquic.asyncio QuicServer (with and without retry=True) on the virtual-time loop of checks.c19,
+    with spoofed copies of client Initials - full-size and cut short - arriving from addresses nobody owns: what
+    the server sends to such an address (Retry packets included) stays within three times what came from it."""
+    from checks import c19
+
+    c19.AMPLIFICATION_MODE[0] = True
+    try:
+        out = c19.run_one(seed, tier=tier, variant=("retry", "multi")[seed % 2], replay=replay)
+    finally:
+        c19.AMPLIFICATION_MODE[0] = False
+    if out.violation is not None:
+        if out.violation["oracle"] == "c19.amplification":
+            out.violation["oracle"] = "c13.amplification-asyncio"
+        else:
+            out.violation = None  # the adapter's other properties are judged by C19
+            out.summary["reason"] = "done"
+    return out
+
+
 def run_one(seed, tier="quick", variant=None, replay=None):
     variant = variant or "handshake"
+    if variant == "asyncio_server":
+        return run_asyncio_server(seed, tier, replay)
     holder = {}
 
     def make(mon):
